@@ -4,8 +4,9 @@ Oracle: `np.<name>(np.array(row_i, dtype))` / `np.<ufunc>.reduce(np.array(row_i,
 max/min/mean/argmax/argmin only for the non-empty rows; the call itself must still succeed when other rows are
 empty); axis=None: the same numpy function on the flat data; keepdims: the per-row numbers as an (n_rows, 1) column.
 Numbers are compared exactly as numbers (3 == 3.0, nan == nan); the statement does not name a result dtype, so the
-dtype is not checked.  mean and the float-only ufuncs (hypot, logaddexp) are compared with a relative tolerance of a
-few ulp because numpy does not promise the rounding of its own mean."""
+dtype is not checked.  mean and the float-only ufuncs (hypot, logaddexp) are compared with a relative tolerance
+(1e-12, float32 1e-5; for mean relative to the mean magnitude of the row's cells) because numpy does not promise the
+rounding / summation order of its own mean."""
 import warnings
 import numpy as np
 from .common import import_repo, length_vectors
@@ -177,6 +178,20 @@ def check(case):
         return None if v is None else refine(case, v, _check, AXES)
 
 
+def _same(got, exp, rtol, op, row):
+    """equality of numbers; for mean the tolerance is relative to the mean magnitude of the cells, because numpy does not
+    promise the order of its own floating-point summation (cancellation of huge cells)"""
+    if num_eq(got, exp, rtol):
+        return True
+    if op == "mean" and row and isinstance(got, float) and isinstance(exp, float):
+        try:
+            scale = sum(abs(float(v)) for v in row) / len(row)
+            return abs(got - exp) <= rtol * scale
+        except (OverflowError, ValueError):
+            return False
+    return False
+
+
 def _check(case):
     """-> None | {"msg", "what"}; raises Unsupported when numpy refuses the input or nothing is specified for it"""
     lengths, dt, op, form = case["lengths"], case["dtype"], case["op"], case["form"]
@@ -207,7 +222,7 @@ def _check(case):
         g = np.asarray(got)
         if g.shape != () and g.size != 1:
             return {"msg": f"{desc}: expected the single number {exp!r}, got {short(got)}", "what": _what("wrong-shape", case)}
-        if not num_eq(g.reshape(()).item(), exp, rtol):
+        if not _same(g.reshape(()).item(), exp, rtol, op, flat(rows)):
             return {"msg": f"{desc}: expected {exp!r} (numpy over all elements), got {g.reshape(()).item()!r}",
                     "what": _what("wrong", case)}
         return None
@@ -228,7 +243,7 @@ def _check(case):
         return {"msg": f"{desc}: expected shape {want_shape} with per-row values {exp_show}, got shape {g.shape}: {short(got)}",
                 "what": _what("wrong-shape", case)}
     gl = g.reshape(n).tolist()
-    bad = [i for i in checked if not num_eq(gl[i], exp[i], rtol)]
+    bad = [i for i in checked if not _same(gl[i], exp[i], rtol, op, rows[i])]
     if bad:
         i = bad[0]
         return {"msg": f"{desc}: row {i} = {rows[i]}: numpy gives {exp[i]!r}, got {gl[i]!r} (all: expected {exp_show}, got {gl})",
